@@ -526,8 +526,30 @@ def record(rep, r):
             rep.ok((shape(t), type(values[name]).__name__), {"binding": name, "type": text, "value": repr(values[name])[:80]} if len(text) < 60 else None)
         else:
             line = next((l for l in r["src"].split("\n") if re.match(rf"{name}(:| =)", l)), "")
-            rep.violation(case.get("sig") or f"not-member:{sig_shape(t, values[name])}",
+            cls = sig_shape(t, values[name])
+            how = op_kind(line)
+            if cls == "Never":
+                how = "any"                       # one defect: `Never` inferred for an element or index
+            elif cls == "List-length":
+                how = "push" if "push" in how else "concat"
+            rep.violation(case.get("sig") or f"not-member:{cls}:{how}",
                           f"`{line}`: reported type {text}, run-time value {values[name]!r}\nprogram:\n{r['src'][:1200]}", {**case, "binding": name})
+
+
+def op_kind(line):
+    """coarse description of how the binding was built (part of the signature, so that a new cause is not hidden by a listed one)"""
+    rhs = line.split(" = ", 1)[-1]
+    m = re.search(r"map\(\(x_ -> x_ (\S+) ", rhs)
+    if m:
+        return "map:" + m.group(1)
+    parts = []
+    for key, name in ((".push(", "push"), (".concat(", "concat"), (".reversed()", "reversed"), ("if(", "if"), ("len(", "len"), ("[", "index" if re.search(r"v\d+\[\w+\]$", rhs) else None)):
+        if key in rhs and name:
+            parts.append(name)
+    ops = sorted(set(re.findall(r" (//|%|\*|\+|-) ", rhs)))
+    if parts:
+        return "+".join(parts)
+    return "arith:" + "".join(ops) if ops else "plain"
 
 
 def sig_shape(t, v):
@@ -547,7 +569,9 @@ KNOWN_CASES = []
 
 def run(ctx, rep):
     n = ctx.n(400, 4000)
-    cases = [{"seed": f"C34:{ctx.seed}:{i}"} for i in range(n)]
+    # the program list is fixed (quick's is a prefix of thorough's): the unchanged tree mis-types a long tail of shapes, and every
+    # listed finding must be reproducible from a committed input; VERIF_SEED only varies a small slice
+    cases = [{"seed": f"C34:fixed:{i}"} for i in range(n)] + [{"seed": f"C34:{ctx.seed}:{i}"} for i in range(ctx.n(20, 100))]
     cases += [{"src": f'print!("{frag.SENTINEL}")\n' + s + "\n", "sig": sig} for sig, s in KNOWN_CASES]
     for r in common.pmap(lambda c: run_one(ctx, c), cases):
         record(rep, r)
